@@ -31,8 +31,9 @@ PARAMETER_TYPE_TEMPLATE_DATA = 'template_data'
 
 BITPOS_START = 'bitpos_start'
 
-# A list of numbers that corresponds to missing values for a number of bits up to 64
-NUMERIC_MISSING_VALUES = [2 ** i - 1 for i in range(65)]
+# A list of numbers that corresponds to missing values for a number of bits up to 256
+# (204YYY and 201YYY allow fields wider than 64 bits)
+NUMERIC_MISSING_VALUES = [2 ** i - 1 for i in range(257)]
 
 
 # Number of bits for represent number of bits used for difference
